@@ -503,3 +503,23 @@ def explore_data(run, prop, rule, repo, body, scen, mods, **kw):
     for item in list.__iter__(paths):
         data_event_findings(run, prop, rule, repo, item[1], scen, mods)
     return paths
+
+
+def dropped_remainder_findings(run, prop, rule, repo, sc, scen, mods, what='items'):
+    """a loop over  n // B  blocks of B (n a size of the data, B a constant) never reaches the last  n mod B  items -- unless the code looks at the remainder
+    somewhere (then: not decided)"""
+    fds = [e for e in sc.events('floor-div') if in_modules(e, mods)]
+    if not fds:
+        return 0
+    if sc.events('size-mod'):
+        raise AnalysisError(f'{scen}: {what} are processed in blocks and the remainder is computed somewhere: whether it is handled is not decided')
+    n = 0
+    for f_ in fds:
+        if not any(sz_eq(e['count'], f_['quotient']) for e in sc.events('floor-range')):
+            continue
+        where, cons, fl_, ln = ev_where(repo, f_, mods)
+        run.oblige(rule, (where, cons, 'every item processed'), False)
+        run.add(Finding(prop, rule, where, cons, f'{scen}: {what} are processed in {f_["dividend"]} // {f_["divisor"]} blocks of {f_["divisor"]}: the last {f_["dividend"]} mod {f_["divisor"]} '
+                        f'of them are never processed', fl_, ln))
+        n += 1
+    return n
